@@ -1,8 +1,333 @@
-//! Implementation side of driver op `fmt` (see /verif/CONTRIBUTING.md).
-#![allow(unused_imports, dead_code)]
+//! Implementation side of driver op `fmt` (property C19, see /verif/CONTRIBUTING.md).
+//!
+//! Sub-commands
+//!   fmt render via=<fmt|pct> f=<val> arr v:<val>... | obj k:<hexkey>=<val>... | one v:<val>  [H:...]
+//!       evaluates `std.format(<f>, <vals>)` (or `<f> % <vals>`) through the real evaluator;
+//!       `H:` tokens (host digit strings, meant for the model) are ignored here.
+//!       answer: `ok <hex utf8>` | `err <kind>[:detail]`
+//!   fmt host <bits16> [F:<prec>] [E:<prec>] [D] [L] [S]
+//!       plain Rust formatting of |value| — the trusted host digit generator:
+//!       F = `{:.p$}`, E = `{:.p$e}`, D = `trunc().to_string()`, L = `log10().floor()`.
+//!       answer: the `H:` tokens to append to a model request.
+//!   fmt tostr <hexsrc>
+//!       `<type> <hex of std.toString(value)>` for a Jsonnet value given as source.
+//!
+//! <val> ::= n:<16 hex digits IEEE bits> | s:<hex utf8> | o:<type>:<hexsrc>:<hexrendered>
+#![allow(dead_code)]
+use crate::ops_eval::{eval_source, EvalOpts};
 use crate::util::*;
 
-/// `fmt <args...>`: one canonical answer line, or `None` for a malformed request.
-pub fn handle(_args: &[&str]) -> Option<String> {
-    None
+fn jsonnet_str(s: &str) -> String {
+    let mut out = String::from("\"");
+    for ch in s.chars() {
+        let o = ch as u32;
+        if ch == '"' {
+            out.push_str("\\\"");
+        } else if ch == '\\' {
+            out.push_str("\\\\");
+        } else if o < 0x20 || o > 0x7e {
+            if o > 0xffff {
+                let o = o - 0x10000;
+                out.push_str(&format!("\\u{:04x}\\u{:04x}", 0xd800 + (o >> 10), 0xdc00 + (o & 0x3ff)));
+            } else {
+                out.push_str(&format!("\\u{:04x}", o));
+            }
+        } else {
+            out.push(ch);
+        }
+    }
+    out.push('"');
+    out
+}
+
+fn num_src(bits: u64) -> Option<String> {
+    let v = f64::from_bits(bits);
+    if !v.is_finite() {
+        return None;
+    }
+    let a = format!("{:?}", v.abs());
+    if v.is_sign_negative() {
+        Some(format!("(-{})", a))
+    } else {
+        Some(a)
+    }
+}
+
+fn val_src(tok: &str) -> Option<String> {
+    let (k, rest) = tok.split_once(':')?;
+    match k {
+        "n" => {
+            if rest.len() != 16 {
+                return None;
+            }
+            num_src(u64::from_str_radix(rest, 16).ok()?)
+        }
+        "s" => Some(jsonnet_str(&String::from_utf8(hex_dec(rest)?).ok()?)),
+        "o" => {
+            let p: Vec<&str> = rest.split(':').collect();
+            if p.len() != 3 {
+                return None;
+            }
+            Some(format!("({})", String::from_utf8(hex_dec(p[1])?).ok()?))
+        }
+        _ => None,
+    }
+}
+
+/// Undo `{:?}` of a `str` / `char` (without the surrounding quotes).
+fn unescape_debug(s: &str) -> String {
+    let mut out = String::new();
+    let mut it = s.chars().peekable();
+    while let Some(c) = it.next() {
+        if c != '\\' {
+            out.push(c);
+            continue;
+        }
+        match it.next() {
+            Some('n') => out.push('\n'),
+            Some('r') => out.push('\r'),
+            Some('t') => out.push('\t'),
+            Some('0') => out.push('\0'),
+            Some('u') => {
+                let mut h = String::new();
+                if it.peek() == Some(&'{') {
+                    it.next();
+                }
+                while let Some(&d) = it.peek() {
+                    it.next();
+                    if d == '}' {
+                        break;
+                    }
+                    h.push(d);
+                }
+                if let Some(ch) = u32::from_str_radix(&h, 16).ok().and_then(char::from_u32) {
+                    out.push(ch);
+                }
+            }
+            Some(o) => out.push(o),
+            None => {}
+        }
+    }
+    out
+}
+
+fn between<'a>(s: &'a str, pre: &str, post: &str) -> Option<&'a str> {
+    s.strip_prefix(pre)?.strip_suffix(post)
+}
+
+fn type_name(debug: &str) -> String {
+    match debug {
+        "Bool" => "boolean".into(),
+        o => o.to_lowercase(),
+    }
+}
+
+fn canon_other(msg: &str) -> String {
+    if msg == "truncated format code" {
+        return "truncated".into();
+    }
+    if msg == "format field width is too large" {
+        return "widthTooLarge".into();
+    }
+    if msg == "format precision is too large" {
+        return "precTooLarge".into();
+    }
+    if msg == "missing format precision digits" {
+        return "missingPrecDigits".into();
+    }
+    if let Some(r) = msg.strip_prefix("invalid format conversion code ") {
+        let inner = between(r, "'", "'").unwrap_or(r);
+        let u = unescape_debug(inner);
+        let cp = u.chars().next().map(|c| c as u32).unwrap_or(0);
+        return format!("invalidConv:{}", cp);
+    }
+    if let Some(r) = msg.strip_prefix("not enough array items for format, got ") {
+        return format!("notEnough:{}", r);
+    }
+    if let Some(r) = msg.strip_prefix("too many array items for format: expected ") {
+        if let Some((a, b)) = r.split_once(", got ") {
+            return format!("tooMany:{}:{}", a, b);
+        }
+    }
+    if let Some(r) = msg.strip_prefix("format precision must be a number, got ") {
+        return format!("precNotNumber:{}", r);
+    }
+    if msg.starts_with("invalid format precision value: ") {
+        return "precInvalid".into();
+    }
+    if let Some(r) = msg.strip_prefix("format field width must be a number, got ") {
+        return format!("widthNotNumber:{}", r);
+    }
+    if msg.starts_with("invalid format field width value: ") {
+        return "widthInvalid".into();
+    }
+    for (pre, k) in [
+        ("'i' / 'd' formatting requires a number, got ", "d"),
+        ("'o' formatting requires a number, got ", "o"),
+        ("'x' / 'X' formatting requires a number, got ", "x"),
+        ("'e' / 'E' formatting requires a number, got ", "e"),
+        ("'f' / 'F' formatting requires a number, got ", "f"),
+        ("'g' / 'G' formatting requires a number, got ", "g"),
+    ] {
+        if let Some(r) = msg.strip_prefix(pre) {
+            return format!("needNumber:{}:{}", k, r);
+        }
+    }
+    if let Some(r) = msg.strip_prefix("'c' formatting requires a string of length 1, got ") {
+        return format!("charLen:{}", r);
+    }
+    if msg.ends_with(" is not a valid unicode codepoint") {
+        return "charBadCodepoint".into();
+    }
+    if let Some(r) = msg.strip_prefix("'c' formatting requires a string or a number, got ") {
+        return format!("charBadType:{}", r);
+    }
+    if msg == "'*' field width cannot be used with object formatting" {
+        return "objStarWidth".into();
+    }
+    if msg == "'*' precision cannot be used with object formatting" {
+        return "objStarPrec".into();
+    }
+    if msg == "mapping keys are required with object formatting" {
+        return "objNeedKey".into();
+    }
+    if let Some(r) = msg.strip_prefix("missing field ") {
+        if let Some(k) = r.strip_suffix(" in object formatting") {
+            let inner = between(k, "\"", "\"").unwrap_or(k);
+            return format!("objMissingField:{}", hex_enc(unescape_debug(inner).as_bytes()));
+        }
+    }
+    format!("otherMessage:{}", hex_enc(msg.as_bytes()))
+}
+
+fn canon(out: &str) -> String {
+    let w: Vec<&str> = out.split(' ').collect();
+    match w.as_slice() {
+        ["ok", h] => format!("ok {}", h),
+        ["err", "eval", "Other", h] => {
+            let msg = hex_dec(h).and_then(|b| String::from_utf8(b).ok()).unwrap_or_default();
+            format!("err {}", canon_other(&msg))
+        }
+        ["err", "eval", "InvalidStdFuncArgType", h] => {
+            let d = hex_dec(h).and_then(|b| String::from_utf8(b).ok()).unwrap_or_default();
+            let p: Vec<&str> = d.split('/').collect();
+            if p.len() == 3 && p[0] == "format" && p[1] == "0" {
+                format!("err fmtNotString:{}", type_name(p[2]))
+            } else {
+                format!("err other:{}", d)
+            }
+        }
+        ["err", stage, kind, ..] => format!("err other:{}:{}", stage, kind),
+        _ => format!("err weird:{}", hex_enc(out.as_bytes())),
+    }
+}
+
+fn opts() -> EvalOpts {
+    EvalOpts::parse(&["mode=str"]).unwrap()
+}
+
+fn render(args: &[&str]) -> Option<String> {
+    let via = args.first()?.strip_prefix("via=")?;
+    let f = val_src(args.get(1)?.strip_prefix("f=")?)?;
+    let shape = *args.get(2)?;
+    let mut vals: Vec<String> = Vec::new();
+    for a in &args[3..] {
+        if a.starts_with("H:") {
+            continue;
+        }
+        if let Some(v) = a.strip_prefix("v:") {
+            vals.push(val_src(v)?);
+        } else if let Some(kv) = a.strip_prefix("k:") {
+            let (k, v) = kv.split_once('=')?;
+            let k = String::from_utf8(hex_dec(k)?).ok()?;
+            vals.push(format!("{}: {}", jsonnet_str(&k), val_src(v)?));
+        } else {
+            return None;
+        }
+    }
+    let vsrc = match shape {
+        "arr" => format!("[{}]", vals.join(", ")),
+        "obj" => format!("{{{}}}", vals.join(", ")),
+        "one" => {
+            if vals.len() != 1 {
+                return None;
+            }
+            vals[0].clone()
+        }
+        _ => return None,
+    };
+    let src = match via {
+        "fmt" => format!("std.format({}, {})", f, vsrc),
+        "pct" => format!("{} % {}", f, vsrc),
+        _ => return None,
+    };
+    Some(canon(&eval_source(src.as_bytes(), &opts())))
+}
+
+fn host(args: &[&str]) -> Option<String> {
+    let b = *args.first()?;
+    if b.len() != 16 {
+        return None;
+    }
+    let bits = u64::from_str_radix(b, 16).ok()?;
+    let v = f64::from_bits(bits).abs();
+    if !v.is_finite() {
+        return None;
+    }
+    let ab = format!("{:016x}", v.to_bits());
+    let mut out: Vec<String> = Vec::new();
+    for q in &args[1..] {
+        if let Some(p) = q.strip_prefix("F:") {
+            let p: usize = p.parse().ok()?;
+            out.push(format!("H:F:{}:{}={}", ab, p, hex_enc(format!("{v:.p$}").as_bytes())));
+        } else if let Some(p) = q.strip_prefix("E:") {
+            let p: usize = p.parse().ok()?;
+            out.push(format!("H:E:{}:{}={}", ab, p, hex_enc(format!("{v:.p$e}").as_bytes())));
+        } else if *q == "D" {
+            out.push(format!("H:D:{}={}", ab, hex_enc(v.trunc().to_string().as_bytes())));
+        } else if *q == "S" {
+            // the number printer behind `%s` (keyed by the full bit pattern)
+            let src = format!("std.toString({})", num_src(bits)?);
+            let r = eval_source(src.as_bytes(), &opts());
+            let w: Vec<&str> = r.split(' ').collect();
+            match w.as_slice() {
+                ["ok", h] => out.push(format!("H:S:{}={}", b.to_lowercase(), h)),
+                _ => return None,
+            }
+        } else if *q == "L" {
+            if v == 0.0 {
+                out.push(format!("H:L:{}=0", ab));
+            } else {
+                out.push(format!("H:L:{}={}", ab, v.log10().floor() as i64));
+            }
+        } else {
+            return None;
+        }
+    }
+    if out.is_empty() {
+        return Some("-".into());
+    }
+    Some(out.join(" "))
+}
+
+fn tostr(args: &[&str]) -> Option<String> {
+    let src = String::from_utf8(hex_dec(args.first()?)?).ok()?;
+    let t = eval_source(format!("std.type({})", src).as_bytes(), &opts());
+    let s = eval_source(format!("std.toString({})", src).as_bytes(), &opts());
+    let tw: Vec<&str> = t.split(' ').collect();
+    let sw: Vec<&str> = s.split(' ').collect();
+    match (tw.as_slice(), sw.as_slice()) {
+        (["ok", th], ["ok", sh]) => Some(format!("{} {}", String::from_utf8(hex_dec(th)?).ok()?, sh)),
+        _ => Some(format!("err {}", hex_enc(s.as_bytes()))),
+    }
+}
+
+/// `fmt <sub> <args...>`
+pub fn handle(args: &[&str]) -> Option<String> {
+    match *args.first()? {
+        "render" => render(&args[1..]),
+        "host" => host(&args[1..]),
+        "tostr" => tostr(&args[1..]),
+        _ => None,
+    }
 }
